@@ -767,11 +767,24 @@ func ruleC18Names(r *Run, p *Program, rule string) {
 			var scan []Node
 			for _, nd := range oss {
 				c := nd.In.(*ssa.Call)
+				isScan := false
 				for _, a := range logicalArgs(&c.Call) {
 					if b, ok := a.T.Underlying().(*types.Basic); ok && b.Kind() == types.String && a.V != nil && nameAbs(nd.Ctx, a.V, 0) == "DIRENT" {
-						scan = append(scan, nd)
-						break
+						isScan = true
 					}
+					// a parameter object that is not a literal here (e.g. returned by the name parser): its string fields
+					if st, ok := a.T.Underlying().(*types.Struct); ok && a.V != nil {
+						for i := 0; i < st.NumFields(); i++ {
+							if b, ok := st.Field(i).Type().Underlying().(*types.Basic); ok && b.Kind() == types.String {
+								if fv := structFieldValue(nd.Ctx, a.V, i); fv.v != nil && nameAbs(fv.ctx, fv.v, 0) == "DIRENT" {
+									isScan = true
+								}
+							}
+						}
+					}
+				}
+				if isScan {
+					scan = append(scan, nd)
 				}
 			}
 			oss = scan
